@@ -1,4 +1,5 @@
 import HexProofs.Manager.HA
+import HexProofs.Writes.MembersC11
 import HexProofs.Manager2.HATf
 import HexProofs.Manager2.HAFill
 import HexProofs.Manager2.FillReadingsHA
@@ -282,5 +283,65 @@ example : (runSchedule (cfgFillHA 60) [readingsDemo[0]]
     = some [ (some 120, true, 30, 0, 0), (some 180, true, 0, 0, 0), (some 240, true, 0, 0, 0),
              (some 300, true, 5, 0, 0), (some 360, true, 3, 0, 0), (some 420, true, 1, 0, 0) ] := by
   decide +kernel
+
+/-! ### member managers of a Heikin-Ashi Hexital (HexProofs/Writes/MembersC11.lean) -/
+
+/-- **Every member's manager is, readings aside, the bare `CandleManager`** with the member's effective configuration
+constructed from the same candles and fed the appended chunks – any Hexital-level configuration, any program of
+façade operations (`Hexital.append` feeds every manager the raw chunk). -/
+theorem member_manager_is_bare {N : List String} {members : List (Member F)} {mem : Member F}
+    (hm : MemberHyps N members mem) (cfg : MgrCfg) (tfn : Option String) (init : List (Candle F))
+    (ops : List (TwinOp F)) (H : Hexital F) (hops : ∀ op, op ∈ ops → op.OK N mem.tree.name)
+    (hrun : runHexital cfg tfn init members ops = .ok H) :
+    ∃ m bm, H.memberManager mem.tree.name = some m ∧
+      runSchedule (mem.effCfg cfg) init (appendedBy ops) = .ok bm ∧
+      m.cfg = bm.cfg ∧ m.candles.map Candle.core = bm.candles.map Candle.core :=
+  member_manager_bare hm cfg tfn init ops H hops hrun
+
+/-- **C11 inside a Hexital, member without effective timeframe**: the Heikin-Ashi left fold over the raw stream -/
+theorem member_schedule {N : List String} {members : List (Member F)} {mem : Member F}
+    (hm : MemberHyps N members mem) (htfx : Option Int) (tfn : Option String) (heff : mem.effTf htfx = none)
+    (init : List (Candle F)) (ops : List (TwinOp F)) (H : Hexital F)
+    (hops : ∀ op, op ∈ ops → op.OK N mem.tree.name)
+    (hraw : RawPlain (init ++ (appendedBy ops).flatten))
+    (hrun : runHexital { tf := htfx, ha := true } tfn init members ops = .ok H) :
+    ∃ m, H.memberManager mem.tree.name = some m ∧ m.cfg = cfgHA ∧
+      m.candles.map Candle.core = (haSpec (init ++ (appendedBy ops).flatten)).map Candle.core :=
+  member_ha hm htfx tfn heff init ops H hops hraw hrun
+
+/-- **… member on a collapsing timeframe** (its own, or the Hexital's): the Heikin-Ashi left fold over the collapsed
+RAW buckets – each member manager converts its own buckets -/
+theorem member_schedule_tf {N : List String} {members : List (Member F)} {mem : Member F}
+    (hm : MemberHyps N members mem) (htfx : Option Int) (tfn : Option String) (tf : Int) (htf : 0 < tf)
+    (heff : mem.effTf htfx = some tf) (init : List (Candle F)) (ops : List (TwinOp F)) (H : Hexital F)
+    (hops : ∀ op, op ∈ ops → op.OK N mem.tree.name)
+    (h : RawStream (init ++ (appendedBy ops).flatten)) (hp : RawPlain (init ++ (appendedBy ops).flatten))
+    (hrun : runHexital { tf := htfx, ha := true } tfn init members ops = .ok H) :
+    ∃ m, H.memberManager mem.tree.name = some m ∧ m.cfg = cfgTfHA tf ∧
+      m.candles.map Candle.core
+        = (haSpec (resample tf (init ++ (appendedBy ops).flatten))).map Candle.core :=
+  member_ha_tf hm htfx tfn tf htf heff init ops H hops (rawHA_of h hp) hrun
+
+/-- **… with `timeframe_fill`**: the Heikin-Ashi left fold over the gap-filled collapsed raw buckets; the raw candles
+may carry any readings -/
+theorem member_schedule_tf_fill {N : List String} {members : List (Member F)} {mem : Member F}
+    (hm : MemberHyps N members mem) (htfx : Option Int) (tfn : Option String) (tf : Int) (htf : 0 < tf)
+    (heff : mem.effTf htfx = some tf) (init : List (Candle F)) (ops : List (TwinOp F)) (H : Hexital F)
+    (hops : ∀ op, op ∈ ops → op.OK N mem.tree.name)
+    (h : RawStream (init ++ (appendedBy ops).flatten)) (hp : RawPlain (init ++ (appendedBy ops).flatten))
+    (hrun : runHexital { tf := htfx, fill := true, ha := true } tfn init members ops = .ok H) :
+    ∃ m, H.memberManager mem.tree.name = some m ∧ m.cfg = cfgFillHA tf ∧
+      m.candles.map Candle.core
+        = (haSpec (fillSpec tf (init ++ (appendedBy ops).flatten))).map Candle.core :=
+  member_ha_tf_fill hm htfx tfn tf htf heff init ops H hops ⟨h.stamped, h.plain, h.sorted⟩ hp hrun
+
+/-- non-vacuity: `T2`, `T3` and default manager of one Heikin-Ashi Hexital; `T1` + fill Hexital with a gap -/
+example := @MembersC11Ex.applied
+example := @MembersC11Ex.appliedF
+
+#print axioms member_manager_is_bare
+#print axioms member_schedule
+#print axioms member_schedule_tf
+#print axioms member_schedule_tf_fill
 
 end Hex.C11
